@@ -1,0 +1,20 @@
+//go:build verif
+
+// Verification hooks (build tag verif) for property C07: the package's unexported format constants, evaluated by the
+// compiler, so that the Coq model's constants are regenerated from the code on every check. No behaviour.
+package encoding
+
+// VerifConsts returns the block mode tags and format constants of this package.
+func VerifConsts() map[string]uint64 {
+	return map[string]uint64{
+		"int_const": intCompressedConstDelta, "int_s8": intCompressedSimple8b, "int_zstd": intCompressZSTD, "int_raw": intUncompressed,
+		"time_const": timeCompressedConstDelta, "time_s8": timeCompressedSimple8b, "time_snappy": timeCompressSnappy, "time_raw": timeUncompressed,
+		"bool_bitpack": boolCompressedBitpack,
+		"str_raw": stringUncompressed, "str_snappy": stringCompressedSnappy, "str_zstd": StringCompressedZstd, "str_lz4": StringCompressedLz4,
+		"str_v2": uint64(StringEncodingV2),
+		"blk_float": uint64(BlockFloat64), "blk_int": uint64(BlockInteger), "blk_bool": uint64(BlockBoolean), "blk_string": uint64(BlockString),
+		"one_begin": BlockOneBegin, "one_float": BlockFloat64One, "one_int": BlockIntegerOne, "one_bool": BlockBooleanOne, "one_string": BlockStringOne, "one_end": BlockOneEnd,
+		"full_begin": BlockFullBegin, "full_float": BlockFloat64Full, "full_int": BlockIntegerFull, "full_bool": BlockBooleanFull, "full_string": BlockStringFull, "full_end": BlockFullEnd,
+		"empty_begin": BlockEmptyBegin, "empty_float": BlockFloat64Empty, "empty_int": BlockIntegerEmpty, "empty_bool": BlockBooleanEmpty, "empty_string": BlockStringEmpty, "empty_end": BlockEmptyEnd,
+	}
+}
